@@ -1,4 +1,1027 @@
-//! World-level family: the real contracts inside cw-multi-test.
+//! World-level family: the real factory / pair / router contracts and the real cw20-base inside
+//! cw-multi-test.  Line protocol on stdin/stdout (see gen/fam_world.py):
+//!   init <nu> <nd> <nt> <maxp> <ubal> <fbal> <tdec>*nt     -> ok <full snapshot>
+//!   op <...>      -> ok|fail <nextras> <extras>* <ndelta> (<idx> <val>)*
+//!   q <...>       -> ok <vals>* | fail
+//! Addresses: contract n = "contract{n}", user i = 1000+i = "user{i}"; denom d = "denom{d}".
+use cosmwasm_std::{
+    coin, to_binary, Addr, Binary, Coin, Decimal, Empty, QueryRequest, Uint128, WasmQuery,
+};
+use cw20::{BalanceResponse, Cw20Coin, Cw20ExecuteMsg, Cw20QueryMsg, MinterResponse, TokenInfoResponse};
+use cw_multi_test::{App, AppResponse, Contract, ContractWrapper, Executor};
+use haloswap::asset::{Asset, AssetInfo, CreatePairRequirements, LPTokenInfo, PairInfo};
+use haloswap::factory::{
+    ConfigResponse, ExecuteMsg as FactoryExecuteMsg, InstantiateMsg as FactoryInstantiateMsg,
+    NativeTokenDecimalsResponse, QueryMsg as FactoryQueryMsg,
+};
+use haloswap::pair::{
+    Cw20HookMsg as PairHook, ExecuteMsg as PairExecuteMsg, QueryMsg as PairQueryMsg,
+    ReverseSimulationResponse, SimulationResponse,
+};
+use haloswap::router::{
+    Cw20HookMsg as RouterHook, ExecuteMsg as RouterExecuteMsg, InstantiateMsg as RouterInstantiateMsg,
+    QueryMsg as RouterQueryMsg, SimulateSwapOperationsResponse, SwapOperation,
+};
+use std::io::{self, BufRead, Write};
+use std::panic::{catch_unwind, AssertUnwindSafe};
+
+fn factory_contract() -> Box<dyn Contract<Empty>> {
+    Box::new(
+        ContractWrapper::new(
+            halo_factory::contract::execute,
+            halo_factory::contract::instantiate,
+            halo_factory::contract::query,
+        )
+        .with_reply(halo_factory::contract::reply),
+    )
+}
+fn pair_contract() -> Box<dyn Contract<Empty>> {
+    Box::new(
+        ContractWrapper::new(
+            halo_pair::contract::execute,
+            halo_pair::contract::instantiate,
+            halo_pair::contract::query,
+        )
+        .with_reply(halo_pair::contract::reply)
+        .with_migrate(halo_pair::contract::migrate),
+    )
+}
+fn token_contract() -> Box<dyn Contract<Empty>> {
+    Box::new(ContractWrapper::new(
+        cw20_base::contract::execute,
+        cw20_base::contract::instantiate,
+        cw20_base::contract::query,
+    ))
+}
+fn router_contract() -> Box<dyn Contract<Empty>> {
+    Box::new(ContractWrapper::new(
+        halo_router::contract::execute,
+        halo_router::contract::instantiate,
+        halo_router::contract::query,
+    ))
+}
+
+fn addr_s(id: u128) -> String {
+    if id >= 1000 {
+        format!("user{}", id - 1000)
+    } else {
+        format!("contract{}", id)
+    }
+}
+fn addr_id(s: &str) -> u128 {
+    if let Some(r) = s.strip_prefix("user") {
+        1000 + r.parse::<u128>().expect("harness: bad user address")
+    } else if let Some(r) = s.strip_prefix("contract") {
+        r.parse::<u128>().expect("harness: bad contract address")
+    } else {
+        panic!("harness: unknown address {}", s)
+    }
+}
+fn denom_s(d: u128) -> String {
+    format!("denom{}", d)
+}
+
+struct Cur<'a> {
+    t: Vec<&'a str>,
+    i: usize,
+}
+impl<'a> Cur<'a> {
+    fn next(&mut self) -> &'a str {
+        let s = self.t.get(self.i).copied().expect("harness: missing token");
+        self.i += 1;
+        s
+    }
+    fn num(&mut self) -> u128 {
+        self.next().parse::<u128>().expect("harness: bad number")
+    }
+    fn opt_num(&mut self) -> Option<u128> {
+        let s = self.next();
+        if s == "-" {
+            None
+        } else {
+            Some(s.parse::<u128>().expect("harness: bad number"))
+        }
+    }
+    fn addr(&mut self) -> String {
+        let n = self.num();
+        addr_s(n)
+    }
+    fn opt_addr(&mut self) -> Option<String> {
+        self.opt_num().map(addr_s)
+    }
+    fn opt_dec(&mut self) -> Option<Decimal> {
+        self.opt_num().map(|a| Decimal::new(Uint128::from(a)))
+    }
+    fn asset(&mut self) -> AssetInfo {
+        let s = self.next();
+        let (k, v) = s.split_once(':').expect("harness: bad asset");
+        let v = v.parse::<u128>().expect("harness: bad asset id");
+        match k {
+            "n" => AssetInfo::NativeToken { denom: denom_s(v) },
+            "t" => AssetInfo::Token {
+                contract_addr: addr_s(v),
+            },
+            _ => panic!("harness: bad asset kind"),
+        }
+    }
+    fn coins(&mut self) -> Vec<Coin> {
+        let k = self.num();
+        (0..k)
+            .map(|_| {
+                let d = self.num();
+                let a = self.num();
+                coin(a, denom_s(d))
+            })
+            .collect()
+    }
+    fn ops(&mut self) -> Vec<SwapOperation> {
+        let k = self.num();
+        (0..k)
+            .map(|_| {
+                let o = self.asset();
+                let a = self.asset();
+                SwapOperation::HaloSwap {
+                    offer_asset_info: o,
+                    ask_asset_info: a,
+                }
+            })
+            .collect()
+    }
+    /// hook message as the binary payload of a Cw20 Send / Receive
+    fn hook(&mut self) -> Binary {
+        match self.next() {
+            "hswap" => {
+                let info = self.asset();
+                let amount = self.num();
+                let bp = self.opt_dec();
+                let ms = self.opt_dec();
+                let to = self.opt_addr();
+                to_binary(&PairHook::Swap {
+                    offer_asset: Asset {
+                        info,
+                        amount: amount.into(),
+                    },
+                    belief_price: bp,
+                    max_spread: ms,
+                    to,
+                })
+                .unwrap()
+            }
+            "hwithdraw" => to_binary(&PairHook::WithdrawLiquidity {}).unwrap(),
+            "hrouter" => {
+                let operations = self.ops();
+                let m = self.opt_num();
+                let to = self.opt_addr();
+                to_binary(&RouterHook::ExecuteSwapOperations {
+                    operations,
+                    minimum_receive: m.map(Uint128::from),
+                    to,
+                })
+                .unwrap()
+            }
+            "hgarbage" => Binary::from(b"{\"nonsense\":{}}".to_vec()),
+            _ => panic!("harness: bad hook"),
+        }
+    }
+}
+
+struct World {
+    app: App,
+    nu: u128,
+    nd: u128,
+    nt: u128,
+    maxp: u128,
+    prev: Vec<u128>,
+}
+
+impl World {
+    fn n_init(&self) -> u128 {
+        2 + self.nt
+    }
+    fn n_contracts(&self) -> u128 {
+        self.n_init() + 2 * self.maxp
+    }
+    fn accounts(&self) -> Vec<u128> {
+        (0..self.nu)
+            .map(|i| 1000 + i)
+            .chain(0..self.n_contracts())
+            .collect()
+    }
+    fn pair_ids(&self) -> Vec<u128> {
+        (0..self.maxp).map(|i| self.n_init() + 2 * i).collect()
+    }
+    fn token_ids(&self) -> Vec<u128> {
+        (0..self.nt)
+            .map(|i| 2 + i)
+            .chain((0..self.maxp).map(|i| self.n_init() + 2 * i + 1))
+            .collect()
+    }
+    fn bank(&self, a: u128, d: u128) -> u128 {
+        self.app
+            .wrap()
+            .query_balance(addr_s(a), denom_s(d))
+            .map(|c| c.amount.u128())
+            .unwrap_or(0)
+    }
+    fn token_info(&self, t: u128) -> Option<TokenInfoResponse> {
+        self.app
+            .wrap()
+            .query_wasm_smart(addr_s(t), &Cw20QueryMsg::TokenInfo {})
+            .ok()
+    }
+    fn asset_code(a: &AssetInfo) -> (u128, u128) {
+        match a {
+            AssetInfo::NativeToken { denom } => (
+                0,
+                denom
+                    .strip_prefix("denom")
+                    .and_then(|s| s.parse().ok())
+                    .expect("harness: foreign denom"),
+            ),
+            AssetInfo::Token { contract_addr } => (1, addr_id(contract_addr)),
+        }
+    }
+    fn wl_comb(wl: &[Addr]) -> u128 {
+        wl.iter()
+            .enumerate()
+            .map(|(i, a)| (i as u128 + 1) * addr_id(a.as_str()))
+            .sum()
+    }
+
+    fn snapshot(&self) -> Vec<u128> {
+        let mut s = vec![];
+        let accounts = self.accounts();
+        for &a in &accounts {
+            for d in 0..self.nd {
+                s.push(self.bank(a, d));
+            }
+        }
+        let toks = self.token_ids();
+        for &t in &toks {
+            match self.token_info(t) {
+                None => {
+                    s.extend(std::iter::repeat(0).take(4 + accounts.len()));
+                }
+                Some(ti) => {
+                    let minter: Option<MinterResponse> = self
+                        .app
+                        .wrap()
+                        .query_wasm_smart(addr_s(t), &Cw20QueryMsg::Minter {})
+                        .unwrap();
+                    s.push(1);
+                    s.push(ti.total_supply.u128());
+                    s.push(ti.decimals as u128);
+                    s.push(minter.map(|m| addr_id(&m.minter) + 1).unwrap_or(0));
+                    for &a in &accounts {
+                        let b: BalanceResponse = self
+                            .app
+                            .wrap()
+                            .query_wasm_smart(addr_s(t), &Cw20QueryMsg::Balance { address: addr_s(a) })
+                            .unwrap();
+                        s.push(b.balance.u128());
+                    }
+                }
+            }
+        }
+        let pairs = self.pair_ids();
+        for &t in &toks {
+            let exists = self.token_info(t).is_some();
+            for i in 0..self.nu {
+                for &p in &pairs {
+                    if !exists {
+                        s.push(0);
+                        continue;
+                    }
+                    // an allowance entry exists iff it shows up in AllAllowances; Allowance{} alone
+                    // cannot tell "no entry" from "entry of 0"
+                    let all: cw20::AllAllowancesResponse = self
+                        .app
+                        .wrap()
+                        .query_wasm_smart(
+                            addr_s(t),
+                            &Cw20QueryMsg::AllAllowances {
+                                owner: addr_s(1000 + i),
+                                start_after: None,
+                                limit: Some(30),
+                            },
+                        )
+                        .unwrap();
+                    let e = all.allowances.iter().find(|a| a.spender == addr_s(p));
+                    s.push(e.map(|a| a.allowance.u128() + 1).unwrap_or(0));
+                }
+            }
+        }
+        let cfg: ConfigResponse = self
+            .app
+            .wrap()
+            .query_wasm_smart(addr_s(0), &FactoryQueryMsg::Config {})
+            .unwrap();
+        s.push(addr_id(&cfg.owner));
+        for d in 0..self.nd {
+            let r: Result<NativeTokenDecimalsResponse, _> = self
+                .app
+                .wrap()
+                .query_wasm_smart(addr_s(0), &FactoryQueryMsg::NativeTokenDecimals { denom: denom_s(d) });
+            s.push(r.map(|x| x.decimals as u128 + 1).unwrap_or(0));
+        }
+        for &p in &pairs {
+            let pi: Result<PairInfo, _> = self
+                .app
+                .wrap()
+                .query_wasm_smart(addr_s(p), &PairQueryMsg::Pair {});
+            match pi {
+                Err(_) => s.extend(std::iter::repeat(0).take(27)),
+                Ok(pi) => {
+                    s.push(1);
+                    for a in pi.asset_infos.iter() {
+                        let (k, v) = Self::asset_code(a);
+                        s.push(k);
+                        s.push(v);
+                    }
+                    s.push(pi.asset_decimals[0] as u128);
+                    s.push(pi.asset_decimals[1] as u128);
+                    s.push(addr_id(&pi.liquidity_token));
+                    s.push(pi.requirements.first_asset_minimum.u128());
+                    s.push(pi.requirements.second_asset_minimum.u128());
+                    s.push(crate::util::u256(&pi.commission_rate.0.to_string()).low_u128_checked());
+                    s.push(pi.requirements.whitelist.len() as u128);
+                    s.push(Self::wl_comb(&pi.requirements.whitelist));
+                    let rec: Result<PairInfo, _> = self.app.wrap().query_wasm_smart(
+                        addr_s(0),
+                        &FactoryQueryMsg::Pair {
+                            asset_infos: pi.asset_infos.clone(),
+                        },
+                    );
+                    match rec {
+                        Err(_) => s.extend(std::iter::repeat(0).take(14)),
+                        Ok(r) => {
+                            s.push(1);
+                            s.push(addr_id(&r.contract_addr));
+                            s.push(addr_id(&r.liquidity_token));
+                            for a in r.asset_infos.iter() {
+                                let (k, v) = Self::asset_code(a);
+                                s.push(k);
+                                s.push(v);
+                            }
+                            s.push(r.asset_decimals[0] as u128);
+                            s.push(r.asset_decimals[1] as u128);
+                            s.push(r.requirements.first_asset_minimum.u128());
+                            s.push(r.requirements.second_asset_minimum.u128());
+                            s.push(crate::util::u256(&r.commission_rate.0.to_string()).low_u128_checked());
+                            s.push(r.requirements.whitelist.len() as u128);
+                            s.push(Self::wl_comb(&r.requirements.whitelist));
+                        }
+                    }
+                }
+            }
+        }
+        // number of contracts instantiated so far = next address
+        let mut n = 0u128;
+        while self
+            .app
+            .wrap()
+            .query_wasm_contract_info(addr_s(n))
+            .is_ok()
+        {
+            n += 1;
+        }
+        s.push(n);
+        s
+    }
+}
+
+trait LowChecked {
+    fn low_u128_checked(&self) -> u128;
+}
+impl LowChecked for bigint::U256 {
+    fn low_u128_checked(&self) -> u128 {
+        let bigint::U256(ref a) = *self;
+        if a[2] != 0 || a[3] != 0 {
+            panic!("harness: commission rate does not fit 128 bits");
+        }
+        ((a[1] as u128) << 64) + a[0] as u128
+    }
+}
+
+fn swap_extras(res: &AppResponse) -> Vec<u128> {
+    let mut out = vec![];
+    for ev in res.events.iter() {
+        if ev.ty != "wasm" {
+            continue;
+        }
+        let is_swap = ev
+            .attributes
+            .iter()
+            .any(|a| a.key == "action" && a.value == "swap");
+        if !is_swap {
+            continue;
+        }
+        for key in ["offer_amount", "return_amount", "spread_amount", "commission_amount"] {
+            let v = ev
+                .attributes
+                .iter()
+                .find(|a| a.key == key)
+                .map(|a| a.value.parse::<u128>().unwrap_or(0))
+                .unwrap_or(0);
+            out.push(v);
+        }
+    }
+    out
+}
+
+fn exec(w: &mut World, c: &mut Cur) -> Result<AppResponse, String> {
+    let kind = c.next();
+    let app = &mut w.app;
+    let e = |r: anyhow::Result<AppResponse>| r.map_err(|e| format!("{:#}", e));
+    match kind {
+        "bank" => {
+            let from = c.addr();
+            let to = c.addr();
+            let coins = c.coins();
+            e(app.send_tokens(Addr::unchecked(from), Addr::unchecked(to), &coins))
+        }
+        "transfer" => {
+            let ta = c.addr();
+            let from = c.addr();
+            let to = c.addr();
+            let n = c.num();
+            e(app.execute_contract(
+                Addr::unchecked(from),
+                Addr::unchecked(ta),
+                &Cw20ExecuteMsg::Transfer {
+                    recipient: to,
+                    amount: n.into(),
+                },
+                &[],
+            ))
+        }
+        "transfer_from" => {
+            let ta = c.addr();
+            let sp = c.addr();
+            let ow = c.addr();
+            let to = c.addr();
+            let n = c.num();
+            e(app.execute_contract(
+                Addr::unchecked(sp),
+                Addr::unchecked(ta),
+                &Cw20ExecuteMsg::TransferFrom {
+                    owner: ow,
+                    recipient: to,
+                    amount: n.into(),
+                },
+                &[],
+            ))
+        }
+        "incr_allow" => {
+            let ta = c.addr();
+            let ow = c.addr();
+            let sp = c.addr();
+            let n = c.num();
+            e(app.execute_contract(
+                Addr::unchecked(ow),
+                Addr::unchecked(ta),
+                &Cw20ExecuteMsg::IncreaseAllowance {
+                    spender: sp,
+                    amount: n.into(),
+                    expires: None,
+                },
+                &[],
+            ))
+        }
+        "mint" => {
+            let ta = c.addr();
+            let s = c.addr();
+            let to = c.addr();
+            let n = c.num();
+            e(app.execute_contract(
+                Addr::unchecked(s),
+                Addr::unchecked(ta),
+                &Cw20ExecuteMsg::Mint {
+                    recipient: to,
+                    amount: n.into(),
+                },
+                &[],
+            ))
+        }
+        "burn" => {
+            let ta = c.addr();
+            let s = c.addr();
+            let n = c.num();
+            e(app.execute_contract(
+                Addr::unchecked(s),
+                Addr::unchecked(ta),
+                &Cw20ExecuteMsg::Burn { amount: n.into() },
+                &[],
+            ))
+        }
+        "send" => {
+            let ta = c.addr();
+            let s = c.addr();
+            let target = c.addr();
+            let n = c.num();
+            let msg = c.hook();
+            e(app.execute_contract(
+                Addr::unchecked(s),
+                Addr::unchecked(ta),
+                &Cw20ExecuteMsg::Send {
+                    contract: target,
+                    amount: n.into(),
+                    msg,
+                },
+                &[],
+            ))
+        }
+        "provide" => {
+            let p = c.addr();
+            let caller = c.addr();
+            let funds = c.coins();
+            let l0 = c.asset();
+            let n0 = c.num();
+            let l1 = c.asset();
+            let n1 = c.num();
+            let tol = c.opt_dec();
+            let receiver = c.opt_addr();
+            e(app.execute_contract(
+                Addr::unchecked(caller),
+                Addr::unchecked(p),
+                &PairExecuteMsg::ProvideLiquidity {
+                    assets: [
+                        Asset {
+                            info: l0,
+                            amount: n0.into(),
+                        },
+                        Asset {
+                            info: l1,
+                            amount: n1.into(),
+                        },
+                    ],
+                    slippage_tolerance: tol,
+                    receiver,
+                },
+                &funds,
+            ))
+        }
+        "swap" => {
+            let p = c.addr();
+            let caller = c.addr();
+            let funds = c.coins();
+            let info = c.asset();
+            let amount = c.num();
+            let bp = c.opt_dec();
+            let ms = c.opt_dec();
+            let to = c.opt_addr();
+            e(app.execute_contract(
+                Addr::unchecked(caller),
+                Addr::unchecked(p),
+                &PairExecuteMsg::Swap {
+                    offer_asset: Asset {
+                        info,
+                        amount: amount.into(),
+                    },
+                    belief_price: bp,
+                    max_spread: ms,
+                    to,
+                },
+                &funds,
+            ))
+        }
+        "pair_receive" => {
+            let p = c.addr();
+            let caller = c.addr();
+            let funds = c.coins();
+            let cs = c.addr();
+            let ca = c.num();
+            let msg = c.hook();
+            e(app.execute_contract(
+                Addr::unchecked(caller),
+                Addr::unchecked(p),
+                &PairExecuteMsg::Receive(cw20::Cw20ReceiveMsg {
+                    sender: cs,
+                    amount: ca.into(),
+                    msg,
+                }),
+                &funds,
+            ))
+        }
+        "pair_upd_dec" => {
+            let p = c.addr();
+            let caller = c.addr();
+            let dn = c.num();
+            let d0 = c.num() as u8;
+            let d1 = c.num() as u8;
+            e(app.execute_contract(
+                Addr::unchecked(caller),
+                Addr::unchecked(p),
+                &PairExecuteMsg::UpdateNativeTokenDecimals {
+                    denom: denom_s(dn),
+                    asset_decimals: [d0, d1],
+                },
+                &[],
+            ))
+        }
+        "router_ops" => {
+            let caller = c.addr();
+            let funds = c.coins();
+            let operations = c.ops();
+            let m = c.opt_num();
+            let to = c.opt_addr();
+            e(app.execute_contract(
+                Addr::unchecked(caller),
+                Addr::unchecked(addr_s(1)),
+                &RouterExecuteMsg::ExecuteSwapOperations {
+                    operations,
+                    minimum_receive: m.map(Uint128::from),
+                    to,
+                },
+                &funds,
+            ))
+        }
+        "router_op" => {
+            let caller = c.addr();
+            let funds = c.coins();
+            let o = c.asset();
+            let a = c.asset();
+            let to = c.opt_addr();
+            e(app.execute_contract(
+                Addr::unchecked(caller),
+                Addr::unchecked(addr_s(1)),
+                &RouterExecuteMsg::ExecuteSwapOperation {
+                    operation: SwapOperation::HaloSwap {
+                        offer_asset_info: o,
+                        ask_asset_info: a,
+                    },
+                    to,
+                },
+                &funds,
+            ))
+        }
+        "router_assert_min" => {
+            let caller = c.addr();
+            let target = c.asset();
+            let prev = c.num();
+            let m = c.num();
+            let receiver = c.addr();
+            e(app.execute_contract(
+                Addr::unchecked(caller),
+                Addr::unchecked(addr_s(1)),
+                &RouterExecuteMsg::AssertMinimumReceive {
+                    asset_info: target,
+                    prev_balance: prev.into(),
+                    minimum_receive: m.into(),
+                    receiver,
+                },
+                &[],
+            ))
+        }
+        "router_receive" => {
+            let caller = c.addr();
+            let cs = c.addr();
+            let ca = c.num();
+            let msg = c.hook();
+            e(app.execute_contract(
+                Addr::unchecked(caller),
+                Addr::unchecked(addr_s(1)),
+                &RouterExecuteMsg::Receive(cw20::Cw20ReceiveMsg {
+                    sender: cs,
+                    amount: ca.into(),
+                    msg,
+                }),
+                &[],
+            ))
+        }
+        "fac_update_config" => {
+            let caller = c.addr();
+            let owner = c.opt_addr();
+            e(app.execute_contract(
+                Addr::unchecked(caller),
+                Addr::unchecked(addr_s(0)),
+                &FactoryExecuteMsg::UpdateConfig {
+                    owner,
+                    token_code_id: None,
+                    pair_code_id: None,
+                },
+                &[],
+            ))
+        }
+        "fac_create_pair" => {
+            let caller = c.addr();
+            let a0 = c.asset();
+            let a1 = c.asset();
+            let nwl = c.num();
+            let whitelist: Vec<Addr> = (0..nwl).map(|_| Addr::unchecked(c.addr())).collect();
+            let min0 = c.num();
+            let min1 = c.num();
+            let comm = c.opt_num();
+            let lpdec = c.opt_num();
+            e(app.execute_contract(
+                Addr::unchecked(caller),
+                Addr::unchecked(addr_s(0)),
+                &FactoryExecuteMsg::CreatePair {
+                    asset_infos: [a0, a1],
+                    requirements: CreatePairRequirements {
+                        whitelist,
+                        first_asset_minimum: min0.into(),
+                        second_asset_minimum: min1.into(),
+                    },
+                    commission_rate: comm.map(|a| bignumber::Decimal256(bigint::U256::from_dec_str(&a.to_string()).unwrap())),
+                    lp_token_info: LPTokenInfo {
+                        lp_token_name: "halo-lp".to_string(),
+                        lp_token_symbol: "HALOLP".to_string(),
+                        lp_token_decimals: lpdec.map(|d| d as u8),
+                    },
+                },
+                &[],
+            ))
+        }
+        "fac_add_native" => {
+            let caller = c.addr();
+            let dn = c.num();
+            let k = c.num() as u8;
+            e(app.execute_contract(
+                Addr::unchecked(caller),
+                Addr::unchecked(addr_s(0)),
+                &FactoryExecuteMsg::AddNativeTokenDecimals {
+                    denom: denom_s(dn),
+                    decimals: k,
+                },
+                &[],
+            ))
+        }
+        "fac_migrate" => {
+            let caller = c.addr();
+            let contract = c.addr();
+            e(app.execute_contract(
+                Addr::unchecked(caller),
+                Addr::unchecked(addr_s(0)),
+                &FactoryExecuteMsg::MigratePair {
+                    contract,
+                    code_id: None,
+                },
+                &[],
+            ))
+        }
+        _ => panic!("harness: unknown world op"),
+    }
+}
+
+fn query(w: &World, c: &mut Cur) -> Result<Vec<u128>, String> {
+    let q = w.app.wrap();
+    match c.next() {
+        "sim" => {
+            let p = c.addr();
+            let info = c.asset();
+            let amount = c.num();
+            let r: SimulationResponse = q
+                .query(&QueryRequest::Wasm(WasmQuery::Smart {
+                    contract_addr: p,
+                    msg: to_binary(&PairQueryMsg::Simulation {
+                        offer_asset: Asset {
+                            info,
+                            amount: amount.into(),
+                        },
+                    })
+                    .unwrap(),
+                }))
+                .map_err(|e| e.to_string())?;
+            Ok(vec![
+                r.return_amount.u128(),
+                r.spread_amount.u128(),
+                r.commission_amount.u128(),
+            ])
+        }
+        "revsim" => {
+            let p = c.addr();
+            let info = c.asset();
+            let amount = c.num();
+            let r: ReverseSimulationResponse = q
+                .query(&QueryRequest::Wasm(WasmQuery::Smart {
+                    contract_addr: p,
+                    msg: to_binary(&PairQueryMsg::ReverseSimulation {
+                        ask_asset: Asset {
+                            info,
+                            amount: amount.into(),
+                        },
+                    })
+                    .unwrap(),
+                }))
+                .map_err(|e| e.to_string())?;
+            Ok(vec![
+                r.offer_amount.u128(),
+                r.spread_amount.u128(),
+                r.commission_amount.u128(),
+            ])
+        }
+        "rsim" => {
+            let amount = c.num();
+            let operations = c.ops();
+            let r: SimulateSwapOperationsResponse = q
+                .query_wasm_smart(
+                    addr_s(1),
+                    &RouterQueryMsg::SimulateSwapOperations {
+                        offer_amount: amount.into(),
+                        operations,
+                    },
+                )
+                .map_err(|e| e.to_string())?;
+            Ok(vec![r.amount.u128()])
+        }
+        "rrevsim" => {
+            let amount = c.num();
+            let operations = c.ops();
+            let r: SimulateSwapOperationsResponse = q
+                .query_wasm_smart(
+                    addr_s(1),
+                    &RouterQueryMsg::ReverseSimulateSwapOperations {
+                        ask_amount: amount.into(),
+                        operations,
+                    },
+                )
+                .map_err(|e| e.to_string())?;
+            Ok(vec![r.amount.u128()])
+        }
+        _ => panic!("harness: unknown query"),
+    }
+}
+
+fn init(c: &mut Cur) -> World {
+    let nu = c.num();
+    let nd = c.num();
+    let nt = c.num();
+    let maxp = c.num();
+    let ubal = c.num();
+    let fbal = c.num();
+    let tdec: Vec<u128> = (0..nt).map(|_| c.num()).collect();
+    let mut app = App::default();
+    app.init_modules(|router, _, storage| {
+        for i in 0..nu {
+            let coins: Vec<Coin> = (0..nd).map(|d| coin(ubal, denom_s(d))).collect();
+            if !coins.is_empty() && ubal > 0 {
+                router
+                    .bank
+                    .init_balance(storage, &Addr::unchecked(addr_s(1000 + i)), coins)
+                    .unwrap();
+            }
+        }
+        let coins: Vec<Coin> = (0..nd).map(|d| coin(fbal, denom_s(d))).collect();
+        if !coins.is_empty() && fbal > 0 {
+            router
+                .bank
+                .init_balance(storage, &Addr::unchecked(addr_s(0)), coins)
+                .unwrap();
+        }
+    });
+    let factory_code = app.store_code(factory_contract());
+    let pair_code = app.store_code(pair_contract());
+    let token_code = app.store_code(token_contract());
+    let router_code = app.store_code(router_contract());
+    let owner = Addr::unchecked(addr_s(1000));
+    let f = app
+        .instantiate_contract(
+            factory_code,
+            owner.clone(),
+            &FactoryInstantiateMsg {
+                pair_code_id: pair_code,
+                token_code_id: token_code,
+            },
+            &[],
+            "factory",
+            None,
+        )
+        .unwrap();
+    assert_eq!(f.as_str(), "contract0");
+    let r = app
+        .instantiate_contract(
+            router_code,
+            owner.clone(),
+            &RouterInstantiateMsg {
+                halo_factory: f.to_string(),
+            },
+            &[],
+            "router",
+            None,
+        )
+        .unwrap();
+    assert_eq!(r.as_str(), "contract1");
+    for (i, d) in tdec.iter().enumerate() {
+        let t = app
+            .instantiate_contract(
+                token_code,
+                owner.clone(),
+                &cw20_base::msg::InstantiateMsg {
+                    name: format!("token{}", i),
+                    symbol: "TOK".to_string(),
+                    decimals: *d as u8,
+                    initial_balances: (0..nu)
+                        .filter(|_| ubal > 0)
+                        .map(|u| Cw20Coin {
+                            address: addr_s(1000 + u),
+                            amount: ubal.into(),
+                        })
+                        .collect(),
+                    mint: Some(MinterResponse {
+                        minter: owner.to_string(),
+                        cap: None,
+                    }),
+                    marketing: None,
+                },
+                &[],
+                "token",
+                None,
+            )
+            .unwrap();
+        assert_eq!(t.as_str(), format!("contract{}", 2 + i));
+    }
+    let mut w = World {
+        app,
+        nu,
+        nd,
+        nt,
+        maxp,
+        prev: vec![],
+    };
+    w.prev = w.snapshot();
+    w
+}
+
+fn join(v: &[u128]) -> String {
+    v.iter().map(|x| x.to_string()).collect::<Vec<_>>().join(" ")
+}
+
 pub fn serve() {
-    println!("BAD world not built yet");
+    let stdin = io::stdin();
+    let stdout = io::stdout();
+    let mut out = stdout.lock();
+    let mut world: Option<World> = None;
+    for line in stdin.lock().lines() {
+        let line = line.expect("read");
+        let line = line.trim().to_string();
+        if line.is_empty() {
+            continue;
+        }
+        let toks: Vec<&str> = line.split_whitespace().collect();
+        let mut c = Cur { t: toks, i: 0 };
+        let resp = match c.next() {
+            "init" => {
+                let w = init(&mut c);
+                let s = format!("ok {}", join(&w.prev));
+                world = Some(w);
+                s
+            }
+            "op" => {
+                let w = world.as_mut().expect("harness: no world");
+                let r = catch_unwind(AssertUnwindSafe(|| exec(w, &mut c)));
+                let (okflag, extras) = match r {
+                    Ok(Ok(res)) => ("ok", swap_extras(&res)),
+                    Ok(Err(_)) => ("fail", vec![]),
+                    Err(p) => {
+                        let msg = if let Some(s) = p.downcast_ref::<&str>() {
+                            s.to_string()
+                        } else if let Some(s) = p.downcast_ref::<String>() {
+                            s.clone()
+                        } else {
+                            String::new()
+                        };
+                        if msg.starts_with("harness:") {
+                            writeln!(out, "BAD {}", msg).unwrap();
+                            out.flush().unwrap();
+                            continue;
+                        }
+                        ("fail", vec![])
+                    }
+                };
+                let snap = w.snapshot();
+                let mut delta = vec![];
+                for (i, (a, b)) in w.prev.iter().zip(snap.iter()).enumerate() {
+                    if a != b {
+                        delta.push(i as u128);
+                        delta.push(*b);
+                    }
+                }
+                w.prev = snap;
+                format!(
+                    "{} {} {} {} {}",
+                    okflag,
+                    extras.len(),
+                    join(&extras),
+                    delta.len() / 2,
+                    join(&delta)
+                )
+            }
+            "q" => {
+                let w = world.as_ref().expect("harness: no world");
+                match catch_unwind(AssertUnwindSafe(|| query(w, &mut c))) {
+                    Ok(Ok(v)) => format!("ok {}", join(&v)),
+                    Ok(Err(_)) => "fail".to_string(),
+                    Err(_) => "fail".to_string(),
+                }
+            }
+            "snap" => {
+                let w = world.as_ref().expect("harness: no world");
+                format!("ok {}", join(&w.snapshot()))
+            }
+            _ => "BAD unknown command".to_string(),
+        };
+        writeln!(out, "{}", resp).unwrap();
+        out.flush().unwrap();
+    }
 }
